@@ -312,3 +312,43 @@ def applied_function(a0, ufunc_kwargs):
         more.update(kk)
         return inner, more
     return a0, kk
+
+
+# ------------------------------------------------------------------ numba.guvectorize(ftylist, signature, **kws)
+def guvectorize_contract(fi):
+    """Problems with the @guvectorize decoration of a kernel: numba takes the list of type tuples first and the layout
+    string second, one type and one layout group per parameter of the function, output core dimensions among the input
+    ones.  A decoration that breaks this fails when the module is imported, i.e. every transform fails."""
+    import ast
+    import re as _re
+
+    deco = [d for d in fi.node.decorator_list if isinstance(d, ast.Call) and (getattr(d.func, "id", None) == "guvectorize" or getattr(d.func, "attr", None) == "guvectorize")]
+    if len(deco) != 1:
+        return None, [f"{len(deco)} guvectorize decorations"]
+    d = deco[0]
+    kw = {k.arg: k.value for k in d.keywords}
+    types = d.args[0] if len(d.args) > 0 else kw.get("ftylist")
+    layout = d.args[1] if len(d.args) > 1 else kw.get("signature")
+    params = [a.arg for a in fi.node.args.posonlyargs + fi.node.args.args]
+    problems = []
+    if not (isinstance(layout, ast.Constant) and isinstance(layout.value, str)):
+        return None, ["the layout string (second argument of guvectorize) is " + (ast.unparse(layout)[:40] if layout is not None else "missing")]
+    if not isinstance(types, (ast.List, ast.Tuple)):
+        problems.append("the list of type signatures (first argument of guvectorize) is " + (ast.unparse(types)[:40] if types is not None else "missing"))
+    text = layout.value.replace(" ", "")
+    if text.count("->") != 1:
+        return None, problems + [f"layout {layout.value!r} has no single '->'"]
+    ins, outs = (_re.findall(r"\(([^()]*)\)", side) for side in text.split("->"))
+    if len(ins) + len(outs) != len(params):
+        problems.append(f"layout {layout.value!r} describes {len(ins)} inputs and {len(outs)} outputs, the function has {len(params)} parameters")
+    if isinstance(types, (ast.List, ast.Tuple)):
+        for t in types.elts:
+            if not isinstance(t, ast.Tuple) or len(t.elts) != len(params):
+                problems.append(f"type signature {ast.unparse(t)[:60]} does not give one type per parameter ({len(params)})")
+                break
+    in_names = {n for g in ins for n in g.split(",") if n}
+    for g in outs:
+        for n in g.split(","):
+            if n and n not in in_names:
+                problems.append(f"output core dimension {n!r} does not occur among the inputs of the layout")
+    return (ins, outs), problems
